@@ -444,6 +444,13 @@ theorem reject_second_directive : Scrub.scrub (.str "red;nope".toList) = .error 
 /-- `[` alone: empty verbatim text -/
 theorem reject_empty_verbatim : Scrub.scrub (.str "[".toList) = .error .valueError := by decide +kernel
 
+/-- a `)` is not an opening bracket (defect D35: the code's character class used to contain it) -/
+theorem reject_stray_close_bracket :
+    Scrub.scrub (.str "rgb()1,2,3)".toList) = .error .valueError ∧
+    Scrub.scrub (.str "ul_color256()17)".toList) = .error .valueError ∧
+    Scrub.scrub (.str "rgb((1,2,3))".toList) = .ok ["38;2;1;2;3".toList] ∧
+    Scrub.scrub (.str "rgb([1,2,3])".toList) = .ok ["38;2;1;2;3".toList] := by decide +kernel
+
 end C14
 
 #print axioms C14.format_table_sorted
@@ -486,3 +493,4 @@ end C14
 #print axioms C14.reject_malformed_rgb_hex
 #print axioms C14.reject_second_directive
 #print axioms C14.reject_empty_verbatim
+#print axioms C14.reject_stray_close_bracket
